@@ -3,7 +3,8 @@
 
   Extends `Gojq/Model/Heap.lean` (labelled trees, allocator = list of owned labels, fresh counter, log of
   in-place writes) with what /repo/func.go does for a slice element of a path, in the tree after the
-  fixes abf8186 (capacity-limited view), 622959f (`release`, clone of a final slice) and abb84a0 (`free`):
+  fixes abf8186 (capacity-limited view), 622959f (`release`, clone of a final slice), abb84a0 (`free`) and
+  bcc8a71 (`free` of the array that carried the elements of an updated slice):
 
     updateArraySlice                      → `enterSlice`, `view`, `plugSlice`    (inside `updS`, `markS`)
     update / updateObject / updateArrayIndex → `plugE` ∘ `enter`                 (the same code as `upd`)
@@ -26,9 +27,11 @@
   A write through a view that shares the label of `v` changes only a prefix of the cell: the log entry
   is completed with the elements behind the view (`rebase`).
   The result of the recursion is copied ELEMENT-WISE into `v` (in place, when `v` is owned and the
-  length is unchanged) or into a new array; the array `u` that carried the elements is dropped — and
-  STAYS REGISTERED when the recursion allocated it (`updateArrayIndex` copying a view that is not
-  owned): a dead registered cell, see `Props/C05Slices.lean` (`slice_update_leaves_dead_registration`).
+  length is unchanged) or into a new array; the array `u` that carried the elements is dropped.  When
+  the recursion allocated it (`updateArrayIndex` copying a view that is not owned) it is registered:
+  before bcc8a71 it STAYED registered — a dead registered cell whose address the Go runtime hands out
+  again (found with this model: `Props/C05Slices.lean`, `dead_registration_before_bcc8a71`); now it is
+  unregistered (`freeU`).
 
   Bounds are integers or `null` (what `toInt` / `toIntCeil` deliver); other bound types are Go errors
   outside the model.  Core Lean only.
@@ -166,21 +169,37 @@ def plugE (cell : Option (Nat × Nat)) (o : Bool) (fo : Focus) (r : T × List Na
     the model does not register it. -/
 def regFresh (l : Nat) (kids : Kids) (A : List Nat) : List Nat := if kids.isEmpty then A else l :: A
 
+/-- root label of a container -/
+def T.root? : T → Option Nat
+  | .node id _ _ _ => some id
+  | _ => none
+
+/-- `if len(u) > 0 && &u[0] != &w[start] { a.free(u) }` (bcc8a71): the array `u` that carried the new
+    elements is dropped after the element-wise copy, so its address is unregistered — unless `u` IS the
+    memory of `w` at `start` (the view written in place, or returned untouched): `same` -/
+def freeU (same : Bool) (u : T) (uks : Kids) (A : List Nat) : List Nat :=
+  if uks.isEmpty || same then A
+  else match u.root? with
+    | some l => A.filter (· ≠ l)
+    | none => A
+
 /-- the part of `updateArraySlice` after the recursive call, `case []any`: the elements of `u` replace
     the elements of the view — in place (`w = v`, `copy(w[start:], u)`) when the length is unchanged and
     `v` is (still) registered, else in a new array of exactly the needed capacity (`makeArray(l, 0)`),
-    and `v` is unregistered (`a.free(v)`).  `u` itself is dropped and NOT unregistered. -/
-def plugSlice (sf : SFocus) (r : T × List Nat × Nat × Log) : Option (T × List Nat × Nat × Log) :=
+    and `v` is unregistered (`a.free(v)`).  `u` itself is dropped and unregistered (`freeU`).
+    `vl` is the label of the view the recursion started from. -/
+def plugSlice (sf : SFocus) (vl : Nat) (r : T × List Nat × Nat × Log) : Option (T × List Nat × Nat × Log) :=
   match r.1 with
-  | .node _ false _ uks =>
+  | .node ul false _ uks =>
     let kids := sf.pre ++ uks ++ sf.post
     match sf.cell with
     | some (id, c) =>
       if uks.length = sf.mid.length ∧ id ∈ r.2.1 then
-        some (.node id false c kids, r.2.1, r.2.2.1,
+        some (.node id false c kids, freeU (ul == vl) r.1 uks r.2.1, r.2.2.1,
           (if sf.pre.isEmpty then rebase id sf.post r.2.2.2 else r.2.2.2) ++ (if uks.isEmpty then [] else [(id, kids)]))
-      else some (.node r.2.2.1 false kids.length kids, regFresh r.2.2.1 kids (r.2.1.filter (· ≠ id)), r.2.2.1 + 1, r.2.2.2)
-    | none => some (.node r.2.2.1 false kids.length kids, regFresh r.2.2.1 kids r.2.1, r.2.2.1 + 1, r.2.2.2)
+      else some (.node r.2.2.1 false kids.length kids,
+        regFresh r.2.2.1 kids (freeU false r.1 uks (r.2.1.filter (· ≠ id))), r.2.2.1 + 1, r.2.2.2)
+    | none => some (.node r.2.2.1 false kids.length kids, regFresh r.2.2.1 kids (freeU false r.1 uks r.2.1), r.2.2.1 + 1, r.2.2.2)
   | _ => none
 
 /-- `update(v, path, n, a)` of func.go for `n ≠ struct{}{}`, paths with slices.
@@ -198,7 +217,7 @@ def updS (A : List Nat) (f : Nat) : PathS → T → T → Option (T × List Nat 
   | .slice s e :: p, v, n =>
     match enterSlice s e v with
     | none => none
-    | some sf => (updS A (viewLabel sf f).2 p (view sf f) n).bind (plugSlice sf)
+    | some sf => (updS A (viewLabel sf f).2 p (view sf f) n).bind (plugSlice sf (viewLabel sf f).1)
 
 /-- after the recursive call of the marking pass, key/index element (as in `mark`) -/
 def plugDel (id : Nat) (o : Bool) (c cCopy : Nat) (pre : Kids) (key : Bytes) (post : Kids)
@@ -210,7 +229,7 @@ def plugDel (id : Nat) (o : Bool) (c cCopy : Nat) (pre : Kids) (key : Bytes) (po
 /-- after the recursive call of the marking pass, slice element: `case []any` as `plugSlice`;
     `case struct{}` (the path ended at the slice): every element of the range is replaced by the
     placeholder, in `v` itself when it is registered, else in a copy (`makeArray(len(v), 0)`) -/
-def plugSliceDel (sf : SFocus) (r : T × List Nat × Nat × Log) : Option (T × List Nat × Nat × Log) :=
+def plugSliceDel (sf : SFocus) (vl : Nat) (r : T × List Nat × Nat × Log) : Option (T × List Nat × Nat × Log) :=
   match r.1 with
   | .hole =>
     match sf.cell with
@@ -219,7 +238,7 @@ def plugSliceDel (sf : SFocus) (r : T × List Nat × Nat × Log) : Option (T × 
       if id ∈ r.2.1 then some (.node id false c kids, r.2.1, r.2.2.1, r.2.2.2 ++ [(id, kids)])
       else some (.node r.2.2.1 false kids.length kids, r.2.2.1 :: r.2.1, r.2.2.1 + 1, r.2.2.2)
     | none => none
-  | _ => plugSlice sf r
+  | _ => plugSlice sf vl r
 
 /-- `update(v, path, struct{}{}, a)` with slices: the marking pass of `delpaths` -/
 def markS (A : List Nat) (f : Nat) : PathS → T → Option (T × List Nat × Nat × Log)
@@ -242,7 +261,7 @@ def markS (A : List Nat) (f : Nat) : PathS → T → Option (T × List Nat × Na
       | none => none
       | some sf =>
         if sf.mid.isEmpty then some (v, A, f, [])  -- `start == end && n == struct{}{}`
-        else (markS A (viewLabel sf f).2 p (view sf f)).bind (plugSliceDel sf)
+        else (markS A (viewLabel sf f).2 p (view sf f)).bind (plugSliceDel sf (viewLabel sf f).1)
 
 /-- the marking loop of `delpaths` -/
 def markAllS : List PathS → T × List Nat × Nat × Log → Option (T × List Nat × Nat × Log)
